@@ -162,3 +162,9 @@ TEXT["C10"] = dict(
     note="Partial by nature: MD5/RSA strength is assumed; multi-byte alterations are covered by checksums only probabilistically (sampled). Four genuine defects repaired in /repo: sector checksums of multi-sector files were never verified (and damaged offsets/empty sectors returned zeros); builder wrote HET/BET positions in the wrong header order so V4 digests failed on intact archives; header-controlled allocations aborted the process.",
     technique="Lean 4 proof (algebraic detection lemmas for ADLER32/CRC32, soundness of accept/reject logic, coverage of the signed range) + exhaustive-offset corruption oracle and checksum correspondence",
 )
+
+TEXT["C16"] = dict(
+    text="Machine-checked Lean 4 theorems: the generated mip chain has mipmaps_count+1 levels, level i has dimensions (max(w/2^i,1), max(h/2^i,1)) = mipmap_size(i), and the last level is 1x1, for all dimensions the format allows; the locator's (offset,size) pairs tile the region behind header and colour map, stay inside it and never overlap, for any list of level sizes; 1-bit and 4-bit alpha packing followed by the decoder's unpacking returns the source alpha quantised to the declared depth for every pixel index and every pixel count (also not a multiple of 8 / 2), with the packed length ceil(n*bits/8). Tied to the code by comparing the model's mip counts, layouts and packed alpha bytes with what image_to_blp/encode_blp produce over a size x target x mipmap grid, plus structural equality of encode->parse, byte-identical re-encode and exact-pixel oracles for the lossless encodings.",
+    note="Two genuine defects repaired in /repo (mip chains of non-square images stopped before 1x1 so BLP0 output did not parse and JPEG levels were duplicated; the DXT parser counted blocks as ceil(w*h/16) and truncated levels whose sides are not multiples of 4). Lossy pixel content (JPEG, DXT, palette choice) is outside the statement and not compared.",
+    technique="Lean 4 proof (induction on the halving chain with log2, list layout invariants, bit-packing round trip via chunking lemmas) + differential correspondence on layouts/packed alpha and round-trip oracles",
+)
